@@ -186,6 +186,7 @@ structure Dp where
   id : List Tok
   parentId : Option (List Tok) := none     -- the multi-choice this sub-choice belongs to
   sub : Option Nat := none                 -- `subchoice_index`
+  arity : Nat := 1                         -- `num_choices` of the multi-choice this sub-choice belongs to
   name : Option String := none
   n : Nat := 0                             -- number of candidates
   lits : Option (List Lit) := none
@@ -214,8 +215,10 @@ mutual
     | c :: cs => unboundOf c :: unboundList cs
 end
 
-def choiceDp (id : List Tok) (parentId : Option (List Tok)) (sub : Option Nat) (info : Info) (n : Nat) : Dp :=
-  { id := id, parentId := parentId, sub := sub, name := info.name, n := n, lits := info.lits, kind := .choice }
+def choiceDp (id : List Tok) (parentId : Option (List Tok)) (sub : Option Nat) (info : Info) (n : Nat)
+    (k : Nat := 1) : Dp :=
+  { id := id, parentId := parentId, sub := sub, arity := k, name := info.name, n := n, lits := info.lits,
+    kind := .choice }
 
 def annotSingleWith (dp : Dp) (kat : Nat → List DNA → Option (List BDNA)) : DNA → Option BDNA
   | .mk (.int v) cs =>
@@ -235,7 +238,7 @@ def annotChoiceNodes (id : List Tok) (k n : Nat) (info : Info)
   if cs.length != k then none
   else if k == 1 then mapIdxM (fun _ c => annotSingleWith (choiceDp id none none info n) (kat id) c) 0 cs
   else mapIdxM (fun i c =>
-    annotSingleWith (choiceDp (id ++ [.i (i : Nat)]) (some id) (some i) info n) (kat (id ++ [.i (i : Nat)])) c) 0 cs
+    annotSingleWith (choiceDp (id ++ [.i (i : Nat)]) (some id) (some i) info n k) (kat (id ++ [.i (i : Nat)])) c) 0 cs
 
 def annotLeaf (pre : List Tok) : Point → DNA → Option BDNA
   | .float _ _ _ _ info, .mk (.flt n d) cs =>
@@ -432,11 +435,19 @@ def parseChoice (s : String) : Option (Nat × Nat × Option String) :=
     | _, _, _ => none
   | _ => none
 
+/-- The last position (counted from `i`) of `l` in the list. -/
+def lastIndexFrom (l : Lit) : List Lit → Nat → Option Nat
+  | [], _ => none
+  | x :: xs, i =>
+    match lastIndexFrom l xs (i + 1) with
+    | some j => some j
+    | none => if x == l then some i else none
+
 /-- `self._literal_index.get(value)`: the LAST candidate with that literal. -/
 def litIndex (lits : Option (List Lit)) (l : Lit) : Option Nat :=
   match lits with
   | none => none
-  | some ls => ((List.range ls.length).reverse.find? fun i => ls[i]? == some l)
+  | some ls => lastIndexFrom l ls 0
 
 /-- The checks of `candidate_index` after the text was taken apart. -/
 def checkChoice (lits : Option (List Lit)) (n i n' : Nat) (lit : Option String) : Option Nat :=
@@ -461,25 +472,28 @@ def choiceIndex (useInts : Bool) (lits : Option (List Lit)) (n : Nat) : DV → O
   | .choice i n' lit => checkChoice lits n i n' (lit.map litStr)
   | _ => none
 
+/-- The decision of one (sub-)choice: under its own id (or name), else position `idx` of the list
+under the id (or name) of the multi-choice `parent = (pid, k, idx)` it belongs to. -/
+def lookupChoice (d : List (String × DE)) (id : List Tok) (name : Option String)
+    (parent : Option (List Tok × Nat × Nat)) : Option (DV × List (String × DE)) :=
+  match getDecision d (renderId id) name with
+  | (some (.one x), d1) => some (x, d1)
+  | (some (.many _), _) => none
+  | (none, d1) =>
+    match parent with
+    | none => none
+    | some (pid, k, idx) =>
+      match getDecision d1 (renderId pid) name with
+      | (some (.many xs), d2) => if xs.length == k then (xs[idx]?).map fun x => (x, d2) else none
+      | _ => none
+
 /-- One (sub-)choice of a decision point: look the decision up, turn it into a candidate index,
-build the chosen candidate's DNA (`fat`). `parentId`: the multi-choice to fall back to. -/
+build the chosen candidate's DNA (`fat`). `parent`: the multi-choice to fall back to. -/
 def fromDictChoiceWith (useInts : Bool) (info : Info) (n : Nat)
     (fat : List Tok → Nat → List (String × DE) → Option (DNA × List (String × DE)))
     (id : List Tok) (parent : Option (List Tok × Nat × Nat)) (d : List (String × DE)) :
     Option (DNA × List (String × DE)) :=
-  let (v, d) := getDecision d (renderId id) info.name
-  let r : Option (DV × List (String × DE)) :=
-    match v with
-    | some (.one x) => some (x, d)
-    | some (.many _) => none
-    | none =>
-      match parent with
-      | none => none
-      | some (pid, k, idx) =>
-        match getDecision d (renderId pid) info.name with
-        | (some (.many xs), d') => if xs.length == k then (xs[idx]?).map fun x => (x, d') else none
-        | _ => none
-  match r with
+  match lookupChoice d id info.name parent with
   | none => none
   | some (.dna c, d) => some (c, d)
   | some (x, d) =>
